@@ -47,27 +47,32 @@ theorem C08_exact_narrowing (term line : Str) (k' : Str) (hk : k' ∈ subkeys te
     (h : term <:+: line) : k' <:+: line :=
   (subkeys_infix term k' hk).trans h
 
-/-- **The merger cache is transparent once input has ended.** In any history of requests in which
-    requests that follow a final request of the same revision carry the same snapshot, every
-    final request is answered with the result of scanning its own snapshot with its own pattern
-    and sort flag — never with a merger cached for other input, another sort order or another
-    query. -/
+/-- **The merger cache is transparent.** In any history of requests in which two requests of one
+    revision with the same item count carry the same snapshot (within a revision the list only
+    grows; `C13_same_count_same_items`), every request — final or not — is answered with the result
+    of scanning its own snapshot with its own pattern and sort flag, never with a merger cached
+    for other input, another item count, another sort order or another query. -/
 theorem C08_merger_cache_transparent {R : Type} (scan : SReq → R) (hext : ScanExt scan) (cacheable : R → Bool)
     (sort0 : Bool) (rev0 : Nat) (rs : List SReq) (hpw : rs.Pairwise Valid) :
-    ∀ x ∈ servePairs scan cacheable { sort := sort0, rev := rev0 } rs, x.1.final = true → x.2 = scan x.1 :=
+    ∀ x ∈ servePairs scan cacheable { sort := sort0, rev := rev0 } rs, x.2 = scan x.1 :=
   servePairs_spec scan hext cacheable rs [] _ (by intro e he; cases he) (by intro s hs; cases hs) hpw
 
 /-! Non-vacuity and a documented limit. -/
 example : (take (postAll ({} : Box Nat) [(true, 1), (false, 2), (true, 3), (false, 4)])).1.map (·.body) = some 4 := by decide
 example : (take (postAll ({} : Box Nat) [(false, 1), (true, 2)])).1.map (·.body) = some 2 := by decide
 
-/-- While input is still arriving the merger cache *can* answer with a stale merger: after a
-    reload, `prevCount` still holds the size of the old input; a request at a smaller count
-    populates the cache, and the next request at exactly the old size is a hit. (The final request
-    is not affected — that is the theorem above.) -/
+/-- The history on which the pinned snapshot answered with a stale merger (finding F32: after a
+    reload the cache was still held to be for the old input's 500 items; a request over 100 items
+    filled it, the next one over 500 items was a hit) is answered correctly. -/
 example :
     let scan : SReq → Nat := fun r => r.snap
     let rs : List SReq := [⟨0, 1, 500, false, true, 0⟩, ⟨0, 2, 100, false, true, 1⟩, ⟨0, 3, 500, false, true, 1⟩]
-    serveAll scan (fun _ => true) { sort := true, rev := 0 } rs = [1, 2, 2] := by decide
+    serveAll scan (fun _ => true) { sort := true, rev := 0 } rs = [1, 2, 3] := by decide
+
+/-- A hit does happen (the theorem is not about a cache that never answers): the same request
+    twice is scanned once. -/
+example :
+    let rs : List SReq := [⟨0, 1, 500, false, true, 0⟩, ⟨0, 1, 500, false, true, 0⟩]
+    ((serve (fun r => r.snap) (fun _ => true) ({ sort := true, rev := 0 } : LS Nat) rs[0]).1.cache.length) = 1 := by decide
 
 end Fzf.Props.C08
